@@ -246,7 +246,7 @@ fn refresh<T: Sc>(c: &mut Cmp, w: &World<T>, wb: &World<T>, params: &[T]) {
         let a = M64::from_t(&refmath::phi_w::<T>(&w.spec, &w.x, w.w.as_ref(), params));
         let eps = w.eps.map(|e| e.f().abs()).unwrap_or(2.0 * T::u());
         c.trunc = match refmath::singular_values(&a) {
-            Some(sv) => sv.iter().any(|s| *s <= 4.0 * eps),
+            Some(sv) => sv.iter().any(|s| *s <= 4.0 * eps || *s < refmath::underflow_range::<T>()),
             None => true,
         };
     }
